@@ -5,6 +5,7 @@
 -/
 import Spydr.Verilog.Lemmas
 import Spydr.Verilog.LemmasEmit
+import Spydr.Verilog.LemmasElab
 
 namespace Spydr.Verilog
 
@@ -217,4 +218,58 @@ example : readConn (fun n => if n = "a" then some (4, 4) else none) 3 (.atom (.p
 example : resizeCable 0 1 (some 3) (some 0) true = ⟨0, 0, 3⟩ := by decide
 example : resizeCable 4 2 (some 7) (some 2) false = ⟨2, 2, 2⟩ := by decide
 
+/-- **assign (reader, as repaired).**  `assign L = R;` becomes an instance of width `min |L| |R|` whose pin
+    `k` (of `o` and of `i`) carries bit `k` of `L` (resp. `R`) counted from the least significant end. -/
+theorem connect_assign_spec {β : Type} (outWs inWs : List β) :
+    (connectAssign outWs inWs).1.length = min outWs.length inWs.length ∧
+    (connectAssign outWs inWs).2.length = min outWs.length inWs.length ∧
+    ∀ k, k < min outWs.length inWs.length →
+      (connectAssign outWs inWs).1[k]? = (outWs[outWs.length - 1 - k]?).map some ∧
+      (connectAssign outWs inWs).2[k]? = (inWs[inWs.length - 1 - k]?).map some := by
+  unfold connectAssign
+  refine ⟨by simp, by simp, ?_⟩
+  intro k hk
+  simp only [List.getElem?_map]
+  rw [List.getElem?_take_of_lt hk, List.getElem?_take_of_lt hk,
+    List.getElem?_reverse (by omega), List.getElem?_reverse (by omega)]
+  exact ⟨rfl, rfl⟩
+
+/-- **alias header port (reader).**  `.p({a, b, …})`: a port of as many pins as bits; pin `k` carries bit
+    `k` of the concatenation counted from its least significant end. -/
+theorem connect_alias_spec {β : Type} (ws : List β) :
+    (connectAlias ws).length = ws.length ∧
+    ∀ k, k < ws.length → (connectAlias ws)[k]? = (ws[ws.length - 1 - k]?).map some := by
+  unfold connectAlias
+  refine ⟨by simp, ?_⟩
+  intro k hk
+  rw [List.getElem?_reverse (by simpa using hk)]
+  simp
+
+example : connectAssign ["a3", "a2", "a1"] ["b1", "b0"] = ([some "a1", some "a2"], [some "b0", some "b1"]) := by rfl
+
+/-- **elab_connection_spec.**  Inside the whole-design elaboration (`ModelElab.elabDesign`, the function
+    compared with `sdn.parse` on every design): whenever the connection step of a named or positional map
+    succeeds on a row whose low `|ws|` pins are free, the instance's row becomes
+    `ws.reverse.map some ++ row.drop |ws|` — bit `k` of the expression (from its least significant end) on
+    pin `k`, the pins above untouched — and nothing else in the design changes. -/
+theorem elab_connection_spec (s s' : Elab.St) (dn iname : String) (k : Nat) (ws : List Nat)
+    (h : Elab.connectInstRow s dn iname k ws = .ok s') :
+    ∃ d ii row, s.find dn = some d ∧ Elab.instIdx d iname = some ii ∧
+      row = ((d.insts.getD ii default).pins).getD k [] ∧
+      ws.length ≤ row.length ∧
+      ((∀ j, j < ws.length → row[j]? = some none) →
+        s' = s.upd dn (fun d' =>
+          { d' with insts := d'.insts.set ii (let i := d.insts.getD ii default; { i with pins := i.pins.set k (ws.reverse.map some ++ row.drop ws.length) }) })) := by
+  obtain ⟨d, ii, row', hd, hi, hc, hs⟩ := Elab.connectInstRow_eq s s' dn iname k ws h
+  refine ⟨d, ii, _, hd, hi, rfl, ?_⟩
+  have hlen : ws.length ≤ (((d.insts.getD ii default).pins).getD k []).length := by
+    by_cases hl : ws.length ≤ (((d.insts.getD ii default).pins).getD k []).length
+    · exact hl
+    · rw [connect_too_wide _ _ (by omega)] at hc
+      cases hc
+  refine ⟨hlen, ?_⟩
+  intro hfree
+  rw [connect_low_aligned _ ws hlen hfree] at hc
+  cases hc
+  exact hs
 end Spydr.Verilog
